@@ -734,7 +734,16 @@ class NetCDFWrite(IOWrite):
         """Write a count variable to the netCDF file."""
         g = self.write_vars
 
-        if not self._already_in_file(count_variable):
+        if create_ncdim:
+            ncdims = None
+        else:
+            # The count variable spans an existing dimension (the
+            # instance dimension of this field), so it can only be
+            # shared with a count variable that spans the same
+            # dimension.
+            ncdims = (ncdim,)
+
+        if not self._already_in_file(count_variable, ncdims):
             ncvar = self._create_netcdf_variable_name(
                 count_variable, default="count"
             )
@@ -811,7 +820,16 @@ class NetCDFWrite(IOWrite):
         """
         g = self.write_vars
 
-        if not self._already_in_file(index_variable):
+        if create_ncdim:
+            ncdims = None
+        else:
+            # The index variable spans an existing dimension (that of
+            # the count variable of this field), so it can only be
+            # shared with an index variable that spans the same
+            # dimension.
+            ncdims = (ncdim,)
+
+        if not self._already_in_file(index_variable, ncdims):
             ncvar = self._create_netcdf_variable_name(
                 index_variable, default="index"
             )
